@@ -226,8 +226,17 @@ func (x *g) freshName(kind string) string {
 			// a parameter of the current function cannot be redeclared lexically at function top level; be conservative
 			return true
 		}
-		// var-like: must not collide with any lexical name of this function, nor be referenced-before in a way that matters (fine)
+		// var-like: must not collide with any lexical name of this function, and must not have been referenced
+		// earlier in this function (the hoisted, still undefined variable would capture that reference and turn
+		// side-effect free expressions into ones whose only effect is an engine exception)
 		if fi.lexNames[nm] {
+			return false
+		}
+		fs := x.sc
+		for fs.parent != nil && !fs.fn {
+			fs = fs.parent
+		}
+		if fs.used[nm] {
 			return false
 		}
 		return true
@@ -590,8 +599,8 @@ func (x *g) joinBin(l, op, r string) string {
 	if op == "<" && strings.HasPrefix(r, "!--") && rs == "" {
 		rs = " "
 	}
-	if op == "/" && len(r) > 0 && (r[0] == '/' || r[0] == '*') && rs == "" {
-		rs = " "
+	if op == "/" && (rs == "" && len(r) > 0 && (r[0] == '/' || r[0] == '*') || strings.HasPrefix(rs, "/")) {
+		rs = " " // never form "//" or "/*" out of a division and what follows it
 	}
 	if (op == ">" || op == ">>" || op == ">>>" || op == ">=") && strings.HasSuffix(l, "--") && ls == "" {
 		ls = " " // a-- >b must not become a-->b at a line start
@@ -1363,9 +1372,10 @@ func (x *g) forStmt(d int) string {
 		return "var " + nm + "=0;for" + x.s() + "(" + x.s() + ";" + nm + "<" + bound + ";" + nm + "++" + x.s() + ")" + body
 	}
 	if x.chance("forextra", 4) {
+		ie := x.par(x.numExpr(1), 1) // before the name exists: no self reference (TDZ)
 		v := x.freshName(kind)
 		x.declare(v, kind, tNum, true)
-		init += "," + x.s() + v + "=" + x.par(x.numExpr(1), 1)
+		init += "," + x.s() + v + "=" + ie
 	}
 	upd := x.pick("forupd", []string{nm + "++", "++" + nm, nm + "+=1", nm + "=" + nm + "+1"})
 	x.loops++
